@@ -181,3 +181,9 @@ def run(eng, tier):
         'not_decided': ['strict positivity of the net proceeds gross - ask fee when an ask fee is charged (zero exactly when the fee equals the gross, e.g. rate 1): value-dependent, listed in inventory.positivity_undecided; every other amount is shown positive by a guard fact, a validated size or a named invariant'],
         'assumptions': ['I5 (fee denom == quote denom of a stored bid) is established by C07/C15 obligations'],
     }
+
+import probes as _pb
+PROBES = [
+    _pb.drop_facts('execute', 'CancelAsk', 'marker_type'),
+    _pb.drop_facts('execute', 'ExecuteMatch', 'marker_query(BID.quote.denom) is Ok'),
+]
